@@ -7,7 +7,7 @@
     are expression trees with uninterpreted ln / sqrt: an equality of results
     below holds for every interpretation of ln and sqrt. *)
 From Coq Require Import QArith Qminmax Permutation.
-From CG3 Require Import Lib.PyZ Model.Dist Model.NJ Spec.DistSpec Proofs.DistProofs Proofs.DistRunProofs Proofs.DistDupProofs Proofs.NJProofs Proofs.NJRunProofs Proofs.NJCompleteProofs Proofs.UPGMAProofs Proofs.NJQuartetProofs.
+From CG3 Require Import Lib.PyZ Model.Dist Model.NJ Spec.DistSpec Spec.SplitSpec Proofs.DistProofs Proofs.DistRunProofs Proofs.DistDupProofs Proofs.NJProofs Proofs.NJRunProofs Proofs.NJCompleteProofs Proofs.UPGMAProofs Proofs.NJQuartetProofs Proofs.NJCherryProofs Proofs.NJTreeMetricProofs.
 Open Scope Z_scope.
 
 (** ------------------------------------------------------------------ pairwise counts *)
@@ -162,15 +162,78 @@ Theorem nj_final_three_exact : forall d a b c,
   Forall2 Qeq (final_lengths d) [a; b; c].
 Proof. exact final_three_exact. Qed.
 
-(** Whole-algorithm consistency: NOT proved.  The missing lemma is that a minimiser of the score
-    matrix of an additive matrix is a cherry (Saitou-Nei / Studier-Keppler); with it the theorems
-    above give, by induction on L, that nj returns the generating tree.  The correspondence check
-    tests this statement exhaustively over all labelled topologies up to the tier's size. *)
-Definition stmt_nj_picks_a_cherry : Prop :=
-  forall (t : partial_tree),
-    (4 <= pt_L t)%nat -> tree_metric (pt_L t) (pt_d t) ->
-    exists a b D, 0 <= a /\ 0 <= b /\
-      cherry_at (pt_L t) (pt_d t) (fst (best_pair t)) (snd (best_pair t)) a b D.
+(** The selection criterion (Saitou-Nei / Studier-Keppler), PROVED.  [binary_tree_metric L d]
+    (Spec/SplitSpec.v): d is the metric of a weighted split system on L tips - positive weights,
+    proper pairwise compatible splits, a pendant split for every tip, maximal (= the tree is
+    binary) - i.e. the additive matrix of a binary tree with positive branch lengths.  Then every
+    off-diagonal pair that minimises the score matrix (whatever the tie order) is a cherry of the
+    tree, and satisfies [cherry_at] with positive pendant lengths. *)
+Theorem nj_score_minimiser_is_cherry : forall t E i j, (3 <= pt_L t)%nat ->
+  split_sys (pt_L t) E -> rep (pt_L t) E (pt_d t) -> (i < pt_L t)%nat -> (j < pt_L t)%nat -> i <> j ->
+  (forall x y, (x < pt_L t)%nat -> (y < pt_L t)%nat -> x <> y -> score_matrix t i j <= score_matrix t x y) ->
+  is_cherry (pt_L t) E i j /\
+  exists a b D, 0 < a /\ 0 < b /\ cherry_at (pt_L t) (pt_d t) i j a b D.
+Proof. exact every_score_minimiser_is_a_cherry. Qed.
+
+Theorem nj_picks_a_cherry : forall t, (3 <= pt_L t)%nat -> binary_tree_metric (pt_L t) (pt_d t) ->
+  exists a b D, 0 < a /\ 0 < b /\ cherry_at (pt_L t) (pt_d t) (fst (best_pair t)) (snd (best_pair t)) a b D.
+Proof. exact NJCherryProofs.nj_picks_a_cherry. Qed.
+
+(** contracting the selected cherry gives again a binary tree metric (on L - 1 tips) *)
+Theorem nj_join_keeps_binary_tree_metric : forall L E d i j, (4 <= L)%nat ->
+  split_sys L E -> rep L E d -> (i < L)%nat -> (j < L)%nat -> i <> j -> is_cherry L E i j ->
+  split_sys (L - 1) (E2 L E i j) /\ rep (L - 1) (E2 L E i j) (join_matrix L d i j).
+Proof. exact (fun L E d i j HL Hss Hrep Hi Hj Hij Hch =>
+                conj (contract_sys L E i j HL Hss Hi Hj Hij Hch) (contract_rep L E d i j Hrep Hi Hj Hij Hch)). Qed.
+
+(** UNCONDITIONAL consistency: for the additive matrix of every binary tree with positive branch
+    lengths on n >= 3 tips (any tip order), nj (model: keep = 1) returns a tree with positive branch
+    lengths, exactly the input's tips, every pair of tips listed, and every listed tip-to-tip path
+    length equal to the input distance.  (A tree with positive lengths is determined by its path
+    metric - classical, not proved here - so this is the generating tree.) *)
+Theorem nj_consistency : forall n d, (3 <= n)%nat -> binary_tree_metric n d ->
+  exists T, nj n d = Some T /\ pos_tree T /\
+    Permutation (names T) (map Z.of_nat (seq 0 n)) /\
+    (forall x y, (x < n)%nat -> (y < n)%nat -> x <> y ->
+       exists q, (In (Z.of_nat x, Z.of_nat y, q) (tip_dists T) \/ In (Z.of_nat y, Z.of_nat x, q) (tip_dists T)) /\ q == d x y) /\
+    (forall x y q, In (x, y, q) (tip_dists T) -> q == d (Z.to_nat x) (Z.to_nat y)).
+Proof. exact nj_consistent. Qed.
+
+(** [binary_tree_metric] is inhabited by construction and closed under growing and relabelling the
+    tree: the 3-star with positive lengths is one; replacing any tip u by a cherry (u, new last tip)
+    with positive pendant lengths a, b (u's old pendant edge becomes the internal edge) gives one;
+    any relabelling of the tips gives one.  Every binary tree with positive branch lengths arises
+    this way (root it at an internal node: start from the star of its three neighbours and expand
+    placeholders top-down, then relabel) - that enumeration fact itself is not formalised. *)
+Theorem star_is_binary_tree_metric : forall a b c, 0 < a -> 0 < b -> 0 < c -> binary_tree_metric 3 (star3_d a b c).
+Proof. exact star3_is_binary_tree_metric. Qed.
+
+Theorem grown_tree_is_binary_tree_metric : forall L u a b d, (2 <= L)%nat -> (u < L)%nat -> 0 < a -> 0 < b ->
+  binary_tree_metric L d -> binary_tree_metric (S L) (expand_d L u a b d).
+Proof. exact grow_binary_tree_metric. Qed.
+
+Theorem relabelled_tree_is_binary_tree_metric : forall L (f g : nat -> nat),
+  (forall k, (k < L)%nat -> (f k < L)%nat) -> (forall k, (k < L)%nat -> (g k < L)%nat) ->
+  (forall k, (k < L)%nat -> g (f k) = k) -> (forall k, (k < L)%nat -> f (g k) = k) ->
+  forall d, binary_tree_metric L d -> binary_tree_metric L (fun x y => d (f x) (f y)).
+Proof. exact relabel_binary_tree_metric. Qed.
+
+(** [tree_metric_gen n d] (Spec/SplitSpec.v): d is the path metric of a labelled binary tree with
+    positive branch lengths, by construction (star, replace a tip by a cherry, relabel).  NJ is
+    consistent on every one of them, for every n >= 3, with no hypothesis about the run. *)
+Theorem generated_trees_are_binary_tree_metrics : forall n d, tree_metric_gen n d -> binary_tree_metric n d.
+Proof. exact gen_is_binary_tree_metric. Qed.
+
+Theorem nj_consistency_on_trees : forall n d, tree_metric_gen n d ->
+  exists T, nj n d = Some T /\ pos_tree T /\
+    Permutation (names T) (map Z.of_nat (seq 0 n)) /\
+    (forall x y, (x < n)%nat -> (y < n)%nat -> x <> y ->
+       exists q, (In (Z.of_nat x, Z.of_nat y, q) (tip_dists T) \/ In (Z.of_nat y, Z.of_nat x, q) (tip_dists T)) /\ q == d x y) /\
+    (forall x y q, In (x, y, q) (tip_dists T) -> q == d (Z.to_nat x) (Z.to_nat y)).
+Proof. exact nj_consistent_on_trees. Qed.
+
+Theorem nj_consistency_nonvacuous : binary_tree_metric 4 ex_quartet.
+Proof. exact ex_quartet_binary_tree_metric. Qed.
 
 (** A join at a cherry keeps the partial tree a faithful representation of the original metric
     [orig] (distances inside every subtree, and depth + matrix entry + depth between subtrees). *)
